@@ -5,6 +5,8 @@ CONSTANTS
   MaxDel = 2
   FixLockOrder = FALSE
   GuardUnstore = TRUE
+  MaxOpenFail = 1
+  StoreBeforeOpen = FALSE
   RecordHist = FALSE
 INVARIANTS NoUseAfterClose NeverOpenTwice NoRemoveWhileInUse AfterwardsLoadable NoDeadlock
 CHECK_DEADLOCK FALSE
